@@ -18,10 +18,10 @@ T1 regenerates from /repo.  Oracles (this file) decide the property statement on
 
 Violation keys (matched by known_findings/C15.json):
   compact-range:float-boundary          F12  float log10 at a power-of-1000 boundary
-  compact-assert:<unit>                 F21  AssertionError in infer_base_unit
+  compact-assert:<unit>                 F21  AssertionError in infer_base_unit (fixed by 3fd38de: now a VIOLATION)
   reduced-dimerr:float-nondyadic        F22  float registry, exponent ratio not dyadic
   compact-fixed:dimensionless-with-units F95 dimensionless but not unitless input is rescaled
-  preferred-simple-wrong-dim            F96  find_simple accepts a non-proportional unit (`**`)
+  preferred-simple-wrong-dim            F96  find_simple accepts a non-proportional unit (`**`) (fixed by 75b5cc1: now a VIOLATION)
 """
 import json
 import logging
@@ -645,9 +645,9 @@ def run(ck):
     ratl = []
     for n in mult:
         f, _ = UF.root(UF.u.UnitsContainer({n: 1}))
-        if exact_num(f) and n not in ambiguous:
+        if exact_num(f):
             ratl.append(n)
-    irrational = [n for n in mult if n not in ratl and n not in ambiguous]
+    irrational = [n for n in mult if n not in ratl]
     ck.extra["pool_rational_units"] = len(ratl)
     ck.extra["pool_float_units"] = len(irrational)
     nonmult = [n for n in UF.canon if not regk.multiplicative(UF.u, n)]
